@@ -29,6 +29,62 @@ CLAIMS = {
         "note": "Kwargs::get/must_get are trusted declarations with uninterpreted results; std-delegating string filters are std's contract; i128::checked_neg assumed.",
         "design_ref": "DESIGN.md section 4 C17",
     },
+    "C01": {
+        "engine": "V+K",
+        "technique": "Verus on the extracted real escape_html (all strings) and on the WriteTop/WritePath arms of interpret lifted mechanically into functions (arm extraction); Kani table for the safe mark",
+        "text": "Proof: (1) the default escaper writes exactly esc(input) for every string, esc containing none of < > \" ' (unbounded); (2) the two sink arms of the VM write, to the current sink and nowhere else, fmt(v) if autoescape is off or v is safe and escape_fn(fmt(v)) otherwise, an undefined value being an error (for all states); (3) autoescape_enabled is the per-call override if present else the template flag; the unsafe from_utf8_unchecked precondition at both sinks is discharged.",
+        "note": "Assumed: Value::format writes fmt_spec (valid UTF-8) or fails leaving a prefix; the escape function pointer behaves as its spec; data flow through the other arms and the mint points of the safe mark are read, not proved.",
+        "design_ref": "DESIGN.md section 4 C01",
+    },
+    "C02": {
+        "engine": "V+K",
+        "technique": "Verus contracts on 19 arms of interpret lifted mechanically (arm extraction): undefined rules, operand checks, stack effects; Kani exhaustive check of the binding-power table against the documented table",
+        "text": "Proof for all VM states: LoadAttr/LoadAttrOpt, BinarySubscript(Opt), Slice(Opt), WritePath tolerate exactly one level of undefined (`?.`/`?[` turn none/undefined bases into undefined; a missing last field is undefined; an undefined base is an error); arithmetic arms reject non-numbers and push exactly number::<op>'s result; ordering arms error on incomparable kinds; Equal/NotEqual/Not/In push exactly the value-level result. Each arm's stack effect (pops/pushes, everything below untouched) is part of its contract.",
+        "note": "Value-level functions are trusted declarations inside the arm unit (their bodies are proved in units number/slice and engine-K groups); control transfer (the enclosing loop, ip += 1) is dropped by arm extraction; the Pratt loop and jump patching are not decided.",
+        "design_ref": "DESIGN.md section 4 C02, 2.2.1",
+    },
+    "C03": {
+        "engine": "V",
+        "technique": "Verus on the extracted real ForLoop/Loop methods against the loop.* protocol invariant, and on State::get_value against the documented scope order",
+        "text": "Proof, unbounded: ForLoop::new/advance/is_over and Loop::advance maintain the protocol invariant (index0, first, last, length, current value, per-iteration locals cleared on every advance but the first, is_over exactly at the end) for every container; State::get_value returns exactly the documented resolution: innermost loop first, then set variables, then the includer's chain if it yields something defined, then the context, then the global context, else undefined (recursion through include_parent included).",
+        "note": "ForLoopIterator is abstracted to the sequence still to be yielded; maps are opaque with a lookup view; compilation of if/for/break/continue and the capture/set arms are not decided.",
+        "design_ref": "DESIGN.md section 4 C03",
+    },
+    "C05": {
+        "engine": "V+T+K",
+        "technique": "Verus on the extracted render_component/render_include (depth guard; interpret's precondition is the depth invariant), engine T on the VM call graph, Kani table for type matching",
+        "text": "Proof: render_component returns Err before rendering anything once depth + 1 exceeds MAX_COMPONENT_RECURSION_DEPTH and runs the nested VM at depth + 1; render_include passes the depth through unchanged; every call cycle of the VM through render_component passes that guard.",
+        "note": "build_context, isolation, priority and API/template equivalence are not decided.",
+        "design_ref": "DESIGN.md section 4 C05",
+    },
+    "C06": {
+        "engine": "V+T+K",
+        "technique": "recursion-measure obligations generated from the call graph of the real parser/compiler (z3), Verus on the two depth guards, Kani on delimiter validation and byte-window helpers",
+        "text": "Proof: every call cycle among the parser's functions passes a depth-counting guard except the ones listed as known findings (elif chains; the compiler's recursion over the AST); the guards inner_parse_expression and parse_until reject at MAX_RECURSION_DEPTH without calling their body and restore the counter on every path.",
+        "note": "Known findings D1/D2 (stack overflow at registration) are reported, not claimed; the tokenizer is not decided; the guards' callees are assumed to restore the counter (inductive hypothesis).",
+        "design_ref": "DESIGN.md section 4 C06, 2.4",
+    },
+    "C07": {
+        "engine": "V+K",
+        "technique": "Verus: Stack push/pop/peek contracts (expect => precondition), per-arm stack effects with 'pops <= |stack|' as precondition, unsafe from_utf8_unchecked preconditions at the sinks; Kani bounded on SmartString",
+        "text": "Proof: Stack::pop/peek panic only on an empty stack (their precondition), every extracted arm pops no more than its stated precondition provides and leaves everything below untouched; both from_utf8_unchecked sites in interpret are preceded by Value::format filling the buffer (obligation discharged given format writes UTF-8).",
+        "note": "The bulk of the property (stack balance of compiled code, reference collection completeness, span presence) is not decidable by contracts within reach and is listed as undecided.",
+        "design_ref": "DESIGN.md section 4 C07",
+    },
+    "C11": {
+        "engine": "V+T",
+        "technique": "Verus on the extracted real find_parents (recursive, with termination measure and pigeonhole lemma); engine T on the VM call graph",
+        "text": "Proof, unbounded over all registries: find_parents returns Ok(ps) iff the extends chain from start is complete, duplicate-free and ends in a template that extends nothing, ps being that chain root-first; Err(MissingParent) implies a dangling link on the chain, Err(CircularExtend) implies the chain revisits a template; it terminates (decreases |names| - |parents|).",
+        "note": "Tera is opaque (names, resolution function, stored template); check_include_cycles is not decided; runtime termination has known finding D3.",
+        "design_ref": "DESIGN.md section 4 C11",
+    },
+    "C18": {
+        "engine": "V+S",
+        "technique": "rustc discharges Send+Sync bounds; Verus proves Err-propagation and the prefix property at escape_html and at both sink arms under a writer that may fail at any call",
+        "text": "Proof: Tera, Context, Value, Error, Kwargs, State, Number are Send + Sync (type checker); with a writer that may fail at any write_all, escape_html and the WriteTop/WritePath arms return Err (never Ok) and what the sink holds is an extension of what it held and a prefix of the failure-free output.",
+        "note": "No schedule is explored (the only concurrency claim is type-level); propagation through the other `?` sites of interpret is read.",
+        "design_ref": "DESIGN.md section 4 C18",
+    },
 }
 
 _PENDING = "no check is registered for this property yet in this build of the machinery"
